@@ -37,17 +37,19 @@
 #endif
 #define FR (2 * NPR + 2)
 #define L (NG + 1 + NF * FR)
-/* Call budget.  Calls that END inside the noise (and the classic delimiter)
- * consume at least one octet each; a well-formed frame costs a synchronised
- * decoder one call and a start-of-frame decoder that is off by one delimiter
- * at most three (delivery at its first END, the error for the missing start,
- * the source end).  An input for which the budget does not suffice is not
- * judged (never a false alarm). */
+/* Call budget.  A call that ends inside the noise consumes at least one
+ * octet of it; the classic delimiter and every well-formed frame cost a
+ * synchronised decoder one call; a start-of-frame decoder that is off by one
+ * delimiter needs two for the frame it loses (delivery at its first END, the
+ * error for the missing start).  An input for which the budget does not
+ * suffice is not judged (so never a false alarm); -DC12_BUDGET_PROBE turns
+ * "the budget suffices" into an assertion (proved for the real decoder at all
+ * quick and thorough sizes; classic NG+NF+1 is tight). */
 #ifdef MAXCALLS
 #elif SOF
-#define MAXCALLS (NG + 2 * NF + 2)
+#define MAXCALLS (NG + 2 * NF + 1)
 #else
-#define MAXCALLS (NG + NF + 2)
+#define MAXCALLS (NG + NF + 1)
 #endif
 
 /* lean scripted endpoints for this harness (file-scope state instead of
@@ -177,9 +179,13 @@ void harness(void)
     VP_WITNESS(done && next == NF && first == 1 && in.n[0] > 0 && in.n[1] > 0
                    && in.state == ST_N && in.ng == 0 && illseq == 1,
                "C12.resync.sof-one-frame-lost.reach");
-    /* empty frames before it do not count */
-    VP_WITNESS(done && next == NF && in.n[0] == 0 && in.state == ST_S,
+#if NF >= 3
+    /* empty frames before it do not count: frame 0 empty, frame 1 lost,
+     * frame 2 arrives */
+    VP_WITNESS(done && next == NF && first == 2 && in.n[0] == 0 && in.n[2] > 0
+                   && in.state == ST_N && in.ng == 0 && illseq == 1,
                "C12.resync.sof-leading-empty.reach");
+#endif
 #else
     /* prefix ends in a lone ESC: ESC END is an invalid escape AND the
      * delimiter */
